@@ -106,7 +106,7 @@ func selName(e ast.Expr) string {
 
 func runC14(c *Ctx) {
 	P := c.P
-	c.Explanation = "Decides structural clauses: (R-SPAN-SENTINEL, an inconsistent-belief rule) the span parser returns a constant in place of an omitted count; every caller must compare that result with the constant before using it arithmetically. (R-PREFIX-TABLES) the constants the writers emit and the constants the readers classify by agree by value: unified line prefixes per opcode ↔ the reader's switch on the first byte and its payload offset; '@@' header tokens and span tags; file-header prefixes and the name/time separator; the normal format's command letters per opcode ↔ the reader's letters and opcode assignment; '< ', '> ' and '---'. (R-TIMEFMT) the reader accepts the very time format constant the writer defaults to. (R-OP-EXHAUSTIVE) every formatter and the reader handle all opcodes. (R-PATCH-FRESH) the git-patch reader does not reuse the backing array of chunks it has already handed out. (R-HEADER-SIDES) a header-writing call receives a (name, time) field pair the reader fills from one header line; (R-LINE-EXACT) the readers' line source removes nothing but the final newline; (R-BOUND-SIDE, R-SIBLING-GUARD) context lines are indexed under guards on their own side. Does NOT decide byte-for-byte re-formatting nor that a rendering applied by the published rules turns Left into Right; in particular the spelling of EMPTY ranges (GNU writes the line before an empty range) has no structural signature here and is not decided."
+	c.Explanation = "Decides structural clauses: (R-SPAN-SENTINEL, an inconsistent-belief rule) the span parser returns a constant in place of an omitted count; every caller must compare that result with the constant before using it arithmetically. (R-PREFIX-TABLES) the constants the writers emit and the constants the readers classify by agree by value: unified line prefixes per opcode ↔ the reader's switch on the first byte and its payload offset; '@@' header tokens and span tags; file-header prefixes and the name/time separator; the normal format's command letters per opcode ↔ the reader's letters and opcode assignment; '< ', '> ' and '---'. (R-TIMEFMT) the reader accepts the very time format constant the writer defaults to. (R-OP-EXHAUSTIVE) every formatter and the reader handle all opcodes. (R-PATCH-FRESH) the git-patch reader does not reuse the backing array of chunks it has already handed out. (R-HEADER-SIDES) a header-writing call receives a (name, time) field pair the reader fills from one header line; (R-LINE-EXACT) the readers' line source removes nothing but the final newline; (R-BOUND-SIDE, R-SIBLING-GUARD) context lines are indexed under guards on their own side. (R-SENTINEL-COMPLETE) a return carrying the sentinel error the git-patch reader tolerates is preceded by the store that records the chunk; (R-TIME-EXACT) the parsed header time is handed on as time.Parse produced it; (R-CONTEXT-FRESH, shared with C13) leading and trailing context are separate allocations. Does NOT decide byte-for-byte re-formatting nor that a rendering applied by the published rules turns Left into Right; in particular the spelling of EMPTY ranges (GNU writes the line before an empty range) has no structural signature here and is not decided."
 	c.rule("R-SPAN-SENTINEL", 1, "every use of a sentinel-carrying result of the span parser is preceded by a comparison with the sentinel")
 	c.rule("R-PREFIX-TABLES", 12, "writer and reader constants agree by value")
 	c.rule("R-TIMEFMT", 2, "the reader parses timestamps with the constant the writers default to")
